@@ -99,3 +99,66 @@ package json
 //@   ensures cur:  t.Type == old(p.tokens[p.pos].Type)
 //@   ensures step: p.pos == old(p.pos) + ite(t.Type == tokenEOF, 0, 1)
 //@   ensures wf:   wfPeeker(p)
+
+// A *stringVal handed around as a node is never a nil pointer (object keys are read through it).
+//@ spec okNode(n) = typeis(n, *stringVal) ==> unboxed(n, *stringVal) != nil
+// The parser functions keep the peeker well formed (so no read ever leaves the
+// token list) for every token sequence the lexer can produce.
+//@ func parseValue(p *peeker) (n node, diags hcl.Diagnostics)
+//@   requires wf: wfPeeker(p)
+//@   modifies *
+//@   ensures wf: wfPeeker(p)
+//@   ensures node: okNode(n)
+//@ func parseObject(p *peeker) (n node, diags hcl.Diagnostics)
+//@   requires wf: wfPeeker(p)
+//@   modifies *
+//@   ensures wf: wfPeeker(p)
+//@   ensures node: okNode(n)
+//@   loop "for"
+//@     invariant wf: wfPeeker(p)
+//@ func parseArray(p *peeker) (n node, diags hcl.Diagnostics)
+//@   requires wf: wfPeeker(p)
+//@   modifies *
+//@   ensures wf: wfPeeker(p)
+//@   ensures node: okNode(n)
+//@   loop "for"
+//@     invariant wf: wfPeeker(p)
+//@ func parseNumber(p *peeker) (n node, diags hcl.Diagnostics)
+//@   requires wf: wfPeeker(p)
+//@   modifies *
+//@   ensures wf: wfPeeker(p)
+//@   ensures node: okNode(n)
+//@ func parseString(p *peeker) (n node, diags hcl.Diagnostics)
+//@   requires wf: wfPeeker(p)
+//@   modifies *
+//@   ensures wf: wfPeeker(p)
+//@   ensures node: okNode(n)
+//@ func parseKeyword(p *peeker) (n node, diags hcl.Diagnostics)
+//@   requires wf: wfPeeker(p)
+//@   modifies *
+//@   ensures wf: wfPeeker(p)
+//@   ensures node: okNode(n)
+// The recovery helpers skip tokens until the construct seems closed; they stop at EOF at the latest.
+//@ func parseObject$1(tok token, p **peeker)
+//@   requires wf: p != nil && wfPeeker(*p)
+//@   modifies (*p).pos
+//@   ensures wf: wfPeeker(*p)
+//@   loop "for"
+//@     invariant wf: p != nil && wfPeeker(*p)
+//@     decreases 2*(len((*p).tokens) - (*p).pos) + ite(tok.Type == tokenEOF, 0, 1)
+//@ func parseArray$1(tok token, p **peeker)
+//@   requires wf: p != nil && wfPeeker(*p)
+//@   modifies (*p).pos
+//@   ensures wf: wfPeeker(*p)
+//@   loop "for"
+//@     invariant wf: p != nil && wfPeeker(*p)
+//@     decreases 2*(len((*p).tokens) - (*p).pos) + ite(tok.Type == tokenEOF, 0, 1)
+//@ func parseValue$1(n node, diags hcl.Diagnostics, tok *token) (r node, rd hcl.Diagnostics)
+//@   requires node: okNode(n)
+//@   ensures node: okNode(r) && r != nil
+//@ func parseFileContent(buf []byte, filename string, start hcl.Pos) (n node, diags hcl.Diagnostics)
+//@   modifies *
+//@ func parseExpression(buf []byte, filename string, start hcl.Pos) (n node, diags hcl.Diagnostics)
+//@   modifies *
+//@ func tokenCanStartValue(tok token) (r bool)
+//@   pure
